@@ -71,6 +71,21 @@ def make_sketch(cfg, shared_memory=False):
     raise ValueError(k)
 
 
+def decoy_configs(cfg):
+    """configurations of the same family that differ from cfg in the parameters that matter"""
+    k = cfg["kind"]
+    if k == "hll":
+        return [{"kind": "hll", "p": p, "seed": cfg["seed"] ^ 1} for p in (7, 16, 11) if p != cfg["p"]]
+    if k == "hh":
+        return [{"kind": "hh", "width": cfg["width"] + 1, "depth": cfg["depth"] % 3 + 1, "max_key_len": m, "phi": 0.3} for m in (3, 16) if m != cfg["max_key_len"]]
+    if k == "linear":
+        return [{"kind": "linear", "width": cfg["width"] + 5, "depth": cfg["depth"] % 4 + 1}]
+    alt_mc = [x for x in (1000, 10**6, CEIL, 2**40) if x != cfg.get("max_count", CEIL) and (k == "log8" or x > 65535)]
+    nr = cfg.get("num_reserved", 15 if k == "log8" else 1023)
+    return [{"kind": k, "width": cfg["width"] + 1, "depth": cfg["depth"], "max_count": mc, "num_reserved": nr} for mc in alt_mc[:2]] + [
+        {"kind": k, "width": cfg["width"], "depth": cfg["depth"] % 3 + 1, "max_count": cfg.get("max_count", CEIL), "num_reserved": nr + 1}]
+
+
 def windows(key, n):
     if len(key) <= n:
         return [key]
@@ -168,6 +183,8 @@ class World:
         self.tmp = tempfile.mkdtemp(prefix="vf_", dir=tmp_root)
         self.nfile = 0
         self.flags = set()
+        self.decoys = None
+        self.nstep = 0
 
     # ---- model side
     def mkey(self, k):
@@ -182,8 +199,35 @@ class World:
         self.sk = []
         shutil.rmtree(self.tmp, ignore_errors=True)
 
+    # ---- interference: unrelated sketches of OTHER configurations are constructed and used between the
+    # steps of the history (state that is wrongly shared per class / per module shows up this way)
+    def interfere(self):
+        self.nstep += 1
+        try:
+            cfgs = decoy_configs(self.cfg)
+            c = cfgs[self.nstep % len(cfgs)]
+            a, b = make_sketch(c), make_sketch(c)
+            if self.kind in ("log16", "log8"):
+                plant(a, [0.0])
+                plant(b, [0.5])
+            a.add(b"decoy", 3)
+            b.add(b"decoy2", 70)
+            a.merge(b)
+            if self.kind == "hll":
+                a.query()
+            elif self.kind == "hh":
+                a.query(3)
+                a[b"decoy"[: c["max_key_len"]]]
+            else:
+                a.query(b"decoy")
+            if self.nstep % 4 == 0:
+                self.decoys = (a, b)  # keep a pair alive across steps
+        except Exception:  # the decoy's own behaviour is not under test here
+            pass
+
     # ---- interpreter
     def apply(self, step):
+        self.interfere()
         op = step["op"]
         i = step.get("i", 0)
         sk = self.sk[i]
